@@ -462,22 +462,8 @@ def spec_sweep_one(row):
                     probs.append("list head changed although a predecessor exists")
             if out.post["sweep_prev"] != row.init["sweep_prev"]:
                 probs.append("sweep_prev changed while freeing")
-        # order facts for the unwind path (C11): unlink / set_live(false) precede the destructor
-        if dropped:
-            di = out.ev.index(dropped[0])
-            if col == "W":
-                unlink = [j for j, e in enumerate(out.ev) if e[0] == "set_next" and e[1] == 9]
-                head_moved = pre["prev"] == "None"
-                if not head_moved and (not unlink or unlink[0] > di):
-                    probs.append("destructor runs before the object is unlinked (a panic would leave a "
-                                 "destructed object in the list: double drop)")
-                if head_moved and out.kind == "unwind" and out.post["all"] != nxt:
-                    probs.append("destructor panic leaves the destructed object at the head of the list")
-            if col == "WW":
-                sl = [j for j, e in enumerate(out.ev) if e[0] == "set_live" and e[1] == x and e[3] == 0]
-                if not sl or sl[0] > di:
-                    probs.append("destructor runs before the live flag is cleared (a panic would leave a "
-                                 "destructed value flagged live: double drop)")
+        # (the unwind rows above carry the C11 obligations semantically: on the unwinding exit the object is already
+        # unlinked / flagged not-live; statement order itself is not checked)
     return probs
 
 
@@ -667,8 +653,6 @@ def spec_root_paths(row):
                 probs.append("event %s around a callback" % name)
         if cbs[0][1] != pre["phase"]:
             probs.append("phase changed before the callback")
-        if mutating and pre["phase"] == "Mark" and cbs[0][2] != 1:
-            probs.append("%s: callback runs with the root not flagged for re-tracing while marking" % pre["path"])
         if not mutating and cbs[0][2] != pre["flag"]:
             probs.append("%s: root flag changed" % pre["path"])
         failed = out.kind != "return" or out.ret == "Err" or (isinstance(out.ret, tuple) and out.ret[0] == "Err")
@@ -677,6 +661,12 @@ def spec_root_paths(row):
             continue  # the by-value arena is destroyed while unwinding (C11: everything is released)
         if out.post["phase"] != pre["phase"]:
             probs.append("phase changed by a callback-taking function")
+        # the root must be flagged on EVERY exit on which the callback may have mutated it (normal return and
+        # unwinding out of the callback alike); whether the barrier runs before or after the callback is not behaviour
+        if mutating and pre["phase"] == "Mark" and out.post["root_needs_trace"] != 1:
+            probs.append("%s: the arena is left (%s exit) with the root not flagged for re-tracing while marking: "
+                         "pointers stored into the root by the callback are never traced" % (
+                             pre["path"], "unwinding" if out.kind == "unwind" else "normal"))
         if out.post["root_needs_trace"] == 0 and cbs[0][2] == 1:
             probs.append("root flag cleared after the callback")
     return probs
